@@ -264,6 +264,24 @@ type collector struct{ b []byte }
 
 func (c *collector) Write(p []byte) (int, error) { c.b = append(c.b, p...); return len(p), nil }
 
+// sizes around the growth steps of a bytes.Buffer / typical "keep or drop" thresholds
+var h3BigSizes = []int{2047, 4095, 4096, 4097, 8192, 16383, 16384, 16385, 20000, 40000, 65535, 65536, 70000}
+
+func bigValue(rng *hk.Rand, n int) string {
+	b := make([]byte, n)
+	for i := range b {
+		b[i] = "abcdefghijklmnopqrstuvwxyzABCDEFGHIJKLMNOPQRSTUVWXYZ0123456789-_=~"[rng.Intn(66)]
+	}
+	return string(b)
+}
+
+func capStr(s string, n int) string {
+	if len(s) > n {
+		return s[:n] + "..."
+	}
+	return s
+}
+
 func writerRequest(rng *hk.Rand, tag string) *http.Request {
 	method := hk.Pick(rng, []string{"GET", "POST", "HEAD", "PUT"})
 	req, _ := http.NewRequest(method, "https://"+tag+".example"+hk.Pick(rng, []string{"/", "/a/b?c=d", "/" + tag}), nil)
@@ -348,8 +366,13 @@ func runRequestWriter(r *hk.Run, rng *hk.Rand) {
 				r.Count("enc.h3.writer.seq.refused-invalid")
 				continue
 			}
+			if rng.Chance(15) { // an unusually large field section (buffer growth boundaries) - and what follows it
+				n := hk.Pick(rng, h3BigSizes)
+				req.Header.Set(hk.Pick(rng, []string{"Cookie", "X-Big"}), bigValue(rng, n))
+				r.Count("enc.h3.writer.seq.big")
+			}
 			err := w.WriteHeaders(&c, req, false)
-			desc := map[string]interface{}{"kind": "h3-writer-seq", "position": j, "url": req.URL.String(), "header": fmt.Sprint(req.Header)}
+			desc := map[string]interface{}{"kind": "h3-writer-seq", "position": j, "url": req.URL.String(), "header": capStr(fmt.Sprint(req.Header), 300), "frame_len": len(c.b)}
 			r.Count("enc.h3.writer.seq")
 			if err != nil {
 				r.Fail(hk.Failure{Sig: "enc:h3:writer-seq:error", What: "writeHeaders refused a valid request", Input: desc, Got: err.Error()})
@@ -357,7 +380,7 @@ func runRequestWriter(r *hk.Run, rng *hk.Rand) {
 			}
 			sec := check("enc:h3:writer-seq", desc, fmt.Sprint(j), c.b, req)
 			cs := hk.Case{Desc: desc}
-			if sec != nil && (i < 40 || j == k-1) {
+			if sec != nil && (i < 40 || j == k-1) && len(c.b) < 3000 {
 				cs.Coq = fmt.Sprintf("H3WriteFrame %s %s", hk.CoqBytes(sec), hk.CoqBytes(c.b))
 			}
 			r.Add(cs, fmt.Sprint("h3ws|", i, j, req.URL, req.Header), true)
@@ -475,6 +498,9 @@ func runH2EncoderSeq(r *hk.Run, rng *hk.Rand) {
 				x.req.Header.Add(fmt.Sprintf("X-Fat-%d", f), strings.Repeat("y", rng.Range(40, 160))+tag)
 			}
 		}
+		if rng.Chance(6) { // larger than the HPACK dynamic table / the buffers: evicts everything
+			x.req.Header.Set("X-Huge", bigValue(rng, hk.Pick(rng, []int{4000, 4097, 16385, 20000})))
+		}
 		if rng.Chance(8) { // refused before anything is encoded: invalid name / value
 			x.invalid = true
 			if rng.Bool() {
@@ -523,7 +549,7 @@ func runH2EncoderSeq(r *hk.Run, rng *hk.Rand) {
 		var coq []string
 		sawRefused := false
 		for j, x := range xs {
-			desc := map[string]interface{}{"kind": "h2-encoder-seq", "position": j, "peer_max_header_list_size": limit, "trailers": x.trailers, "fields": fmt.Sprintf("%q", x.want), "list_size": listSize(x.want)}
+			desc := map[string]interface{}{"kind": "h2-encoder-seq", "position": j, "peer_max_header_list_size": limit, "trailers": x.trailers, "fields": capStr(fmt.Sprintf("%q", x.want), 600), "list_size": listSize(x.want)}
 			r.Count("enc.h2.seq")
 			var block []byte
 			var err error
@@ -541,7 +567,9 @@ func runH2EncoderSeq(r *hk.Run, rng *hk.Rand) {
 				sawRefused = true
 				continue
 			}
-			coq = append(coq, hk.CoqPair(coqStrPairs(x.want), hk.CoqBool(err != nil)))
+			if listSize(x.want) < 3000 {
+				coq = append(coq, hk.CoqPair(coqStrPairs(x.want), hk.CoqBool(err != nil)))
+			}
 			switch {
 			case mustRefuse && err == nil:
 				r.Fail(hk.Failure{Sig: "enc:h2:seq:over-limit-sent", What: "a header / trailer list larger than the peer's SETTINGS_MAX_HEADER_LIST_SIZE was encoded for sending", Input: desc})
@@ -566,7 +594,7 @@ func runH2EncoderSeq(r *hk.Run, rng *hk.Rand) {
 				if sawRefused {
 					sig = "enc:h2:seq:hpack-decode-after-refused"
 				}
-				r.Fail(hk.Failure{Sig: sig, What: "the reference hpack decoder, fed every header block the connection SENT in order, does not get this exchange's fields from its block (encoder and peer dynamic tables out of step)", Input: desc, Got: fmt.Sprintf("%q %v", got, derr), Want: fmt.Sprintf("%q", x.want)})
+				r.Fail(hk.Failure{Sig: sig, What: "the reference hpack decoder, fed every header block the connection SENT in order, does not get this exchange's fields from its block (encoder and peer dynamic tables out of step)", Input: desc, Got: capStr(fmt.Sprintf("%q %v", got, derr), 800), Want: capStr(fmt.Sprintf("%q", x.want), 800)})
 				break
 			}
 			if sawRefused {
